@@ -57,15 +57,37 @@ def malformed(rng):
     return h
 
 
+def narrow_index(rng):
+    """index arrays handed over in a narrow integer type: coverage pixel * block size must not be computed in it
+    (block size 4^6: coverage pixel 8 times 4096 already exceeds int16)"""
+    covord, spord = 1, 7
+    dt = rng.choice(['f8', 'i4', 'u2'])
+    c = gen.MapCfg('m', 'plain', covord, spord, dtype=dt)
+    idt = rng.choice(['i2', 'i2', 'i4', 'u2', 'list'])
+    cov = rng.sample(range(8, 48), 2) + [rng.randrange(0, 8)]
+    c.covpix = cov
+    h = [c.line() + ' idtype=%s' % idt, 'covmask m']
+    pix = [k * c.nfine + rng.randrange(c.nfine) for k in cov]
+    h += ['upd m op=replace pix=%s val=%s' % (','.join(map(str, pix)), c.val(rng)), 'covmask m', 'valid m',
+          'get m pix=%s path=pix' % ','.join(map(str, pix)), 'covmap m',
+          'write m f=f1 compress=0', 'read r=p f=f1 pixels=%s idtype=%s' % (','.join(map(str, cov[:2])), idt),
+          'covmask p', 'valid p', 'get p pix=%s path=pix' % ','.join(map(str, pix)), 'covmap p']
+    return h
+
+
 def histories(rng, tier):
     mods = available()
     share = 60 if tier == 'quick' else 400
     out = []
     for m in mods:
         hs = m.histories(rng, 'quick')
+        # a `state` export lists every pixel of the sphere: histories at very high orders (C17) stay out
+        hs = [h for h in hs if not any(int(t[6:]) > 9 for ln in h if ln.startswith('cfg ')
+                                       for t in ln.split() if t.startswith('spord='))]
         rng.shuffle(hs)
         out += [add_states(h) for h in hs[:share]]
     out += [malformed(rng) for _ in range(120 if tier == 'quick' else 1000)]
+    out += [narrow_index(rng) for _ in range(6 if tier == 'quick' else 40)]
     return out
 
 
